@@ -3,6 +3,7 @@ import Unimock.Model.Interleave
 import Unimock.Model.ValueChain
 import Unimock.Model.Codegen.Method
 import Unimock.Model.Output
+import Unimock.Model.Codegen.Matching
 /-!
 # Line protocol: parse scenarios, run them on the model, print the canonical trace
 
@@ -534,5 +535,125 @@ def runOutCase (toks : List String) : String :=
           go n r.2 ((match r.1 with | some v => showVal v | none => "!CannotReturnValueMoreThanOnce") :: acc)
       " ".intercalate (go n s [])
   | _, _ => "parse-error"
+
+end Unimock.Driver
+
+namespace Unimock.Driver
+open Unimock.Matching
+
+/-! ## `matching!` cases (`matchcase` lines): accept bits of the model over the finite domain -/
+
+def takeNat (cs : List Char) : Nat × List Char :=
+  let ds := cs.takeWhile Char.isDigit
+  ((String.ofList ds).toNat?.getD 0, cs.dropWhile Char.isDigit)
+
+partial def parseNatListC (cs : List Char) (acc : List Nat) : List Nat × List Char :=
+  match cs with
+  | ']' :: rest => (acc.reverse, rest)
+  | ',' :: rest => parseNatListC rest acc
+  | _ => let (n, r) := takeNat cs; if r.length == cs.length then (acc.reverse, cs) else parseNatListC r (n :: acc)
+
+mutual
+partial def parseMV (cs : List Char) : Option (Matching.V × List Char) :=
+  match cs with
+  | 'n' :: rest => let (k, r) := takeNat rest; some (.n k, r)
+  | 'N' :: rest => some (.none, rest)
+  | 'S' :: '(' :: rest => (parseMV rest).bind fun (v, r) => match r with | ')' :: r => some (.some v, r) | _ => none
+  | 's' :: '[' :: rest => let (ns, r) := parseNatListC rest []; some (.str ns, r)
+  | 'v' :: '[' :: rest => (parseMVList rest).map fun (vs, r) => (.slice vs, r)
+  | _ => none
+partial def parseMVList (cs : List Char) : Option (Matching.VList × List Char) :=
+  match cs with
+  | ']' :: rest => some (.nil, rest)
+  | ',' :: rest => parseMVList rest
+  | _ => (parseMV cs).bind fun (v, r) => (parseMVList r).map fun (vs, r2) => (.cons v vs, r2)
+end
+
+mutual
+partial def parseMP (cs : List Char) : Option (Matching.P × List Char) :=
+  match cs with
+  | 'l' :: rest => let (k, r) := takeNat rest; some (.lit k, r)
+  | 'r' :: rest =>
+    let (a, r) := takeNat rest
+    match r with
+    | '-' :: r => let (b, r) := takeNat r; some (.range a b, r)
+    | _ => none
+  | 'w' :: rest => some (.wild, rest)
+  | 'b' :: rest => let (x, r) := takeNat rest; some (.bind x, r)
+  | 'a' :: rest =>
+    let (x, r) := takeNat rest
+    match r with
+    | '(' :: r => (parseMP r).bind fun (p, r) => match r with | ')' :: r => some (.bindAt x p, r) | _ => none
+    | _ => none
+  | 'o' :: '[' :: rest => (parseMPList rest).map fun (ps, r) => (.alt ps, r)
+  | 'S' :: '(' :: rest => (parseMP rest).bind fun (p, r) => match r with | ')' :: r => some (.some p, r) | _ => none
+  | 'N' :: rest => some (.none, rest)
+  | 's' :: '[' :: rest => let (ns, r) := parseNatListC rest []; some (.strLit ns, r)
+  | 'e' :: '[' :: rest => (parseMPList rest).map fun (ps, r) => (.sliceExact ps, r)
+  | 't' :: '[' :: rest =>
+    (parseMPList rest).bind fun (pre, r) => match r with
+      | '[' :: r => (parseMPList r).map fun (suf, r) => (.sliceRest pre suf, r)
+      | _ => none
+  | _ => none
+partial def parseMPList (cs : List Char) : Option (Matching.PList × List Char) :=
+  match cs with
+  | ']' :: rest => some (.nil, rest)
+  | ',' :: rest => parseMPList rest
+  | _ => (parseMP cs).bind fun (p, r) => (parseMPList r).map fun (ps, r2) => (.cons p ps, r2)
+end
+
+partial def parseMG (cs : List Char) : Option (Matching.G × List Char) :=
+  match cs with
+  | 'T' :: rest => some (.tt, rest)
+  | 'q' :: rest => let (x, r) := takeNat rest; match r with | ':' :: r => let (c, r) := takeNat r; some (.eqc x c, r) | _ => none
+  | 'l' :: rest => let (x, r) := takeNat rest; match r with | ':' :: r => let (c, r) := takeNat r; some (.ltc x c, r) | _ => none
+  | 'A' :: '(' :: rest =>
+    (parseMG rest).bind fun (a, r) => match r with
+      | ',' :: r => (parseMG r).bind fun (b, r) => match r with | ')' :: r => some (.and a b, r) | _ => none
+      | _ => none
+  | 'O' :: '(' :: rest =>
+    (parseMG rest).bind fun (a, r) => match r with
+      | ',' :: r => (parseMG r).bind fun (b, r) => match r with | ')' :: r => some (.or a b, r) | _ => none
+      | _ => none
+  | _ => none
+
+/-- `P:<p>` | `EQ:<v>` | `NE:<v>` -/
+def parseElem (s : String) : Option Matching.Elem :=
+  if s.startsWith "P:" then (parseMP (s.drop 2).toString.toList).map fun (p, _) => .pat p
+  else if s.startsWith "EQ:" then (parseMV (s.drop 3).toString.toList).map fun (v, _) => .cmp true v
+  else if s.startsWith "NE:" then (parseMV (s.drop 3).toString.toList).map fun (v, _) => .cmp false v
+  else none
+
+def mkVList : List Matching.V → Matching.VList
+  | [] => .nil
+  | v :: vs => .cons v (mkVList vs)
+
+def domainOf (c : Char) : List Matching.V :=
+  match c with
+  | 'n' => [.n 0, .n 1, .n 2, .n 3]
+  | 'o' => [.none, .some (.n 0), .some (.n 1), .some (.n 2)]
+  | 's' => [.str [], .str [97], .str [97, 98]]
+  | _ => [.slice (mkVList []), .slice (mkVList [.n 1]), .slice (mkVList [.n 1, .n 2]), .slice (mkVList [.n 1, .n 2, .n 3])]
+
+def tuplesOf : List Char → List (List Matching.V)
+  | [] => [[]]
+  | c :: cs => (domainOf c).flatMap fun v => (tuplesOf cs).map fun t => v :: t
+
+/-- `matchcase <id> types=<nn|on|ss|ll|n> guard=<g|-> alts=<elem;elem/elem;elem>` -/
+def runMatchCase (toks : List String) : String :=
+  let types := ((kv toks "types").getD "").toList
+  let guard : Option Matching.G := match kv toks "guard" with
+    | some "-" => none
+    | some g => (parseMG g.toList).map (·.1)
+    | none => none
+  let altsS := ((kv toks "alts").getD "").splitOn "/"
+  let alts : List (List Matching.Elem) := (altsS.filter (· ≠ "")).map fun a => ((a.splitOn ";").filter (· ≠ "")).filterMap parseElem
+  let inp : Matching.Input := ⟨alts, guard⟩
+  let ir := Matching.generate inp
+  let bits (en : Bool) : String := String.ofList ((tuplesOf types).map fun args => if (Matching.evalIR ir args en).1 then '1' else '0')
+  let diag : String := ";".intercalate ((tuplesOf types).map fun args =>
+    let r := Matching.evalIR ir args true
+    if r.1 then "-" else ",".intercalate (r.2.map toString))
+  s!"un={bits false} ord={bits true} spec={String.ofList ((tuplesOf types).map fun args => if Matching.specAccept inp args then '1' else '0')} diag={diag}"
 
 end Unimock.Driver
